@@ -28,6 +28,7 @@ type SpecEnv struct {
 	resolve func(name string) (TV, bool)
 	oldResolve func(name string) (TV, bool)
 	resolveRet func(site string) (TV, bool)
+	resolveAtLoop func(name string) (TV, bool)
 	hyp     bool // evaluating a hypothesis (affects nothing semantically; used for diagnostics)
 	depth   int
 	transparent bool // reveal every opaque spec function (used when proving lemmas)
@@ -874,6 +875,17 @@ func (env *SpecEnv) evalCall(e *Expr) TV {
 				return boolTV(v)
 			}
 			return boolTV("false")
+		case "atloop":
+			// atloop(x): the value the local variable x had at the head of the innermost enclosing
+			// loop that carries it, in the current iteration (before the body assigned to it)
+			if env.resolveAtLoop == nil || len(args) != 1 || args[0].K != "id" {
+				sfail("atloop(x) is only available in assert clauses, for a local variable")
+			}
+			tv, ok := env.resolveAtLoop(args[0].Name)
+			if !ok {
+				sfail("atloop(%s): no enclosing loop carries this variable", args[0].Name)
+			}
+			return tv
 		case "ret", "ret0", "ret1", "ret2":
 			// ret(callee#k): the value returned by the k-th call site of callee (first result of a
 			// tuple; ret1, ret2 select the others). Unconstrained when that call was not executed
